@@ -108,6 +108,39 @@ def k2_probes(ctx):
             ctx.violation(f"{name}: {out}", {"text": text[:80] + "…", "env": common.enc_env(env), "impl": out}, key="K2:" + name)
 
 
+def literal_twins(ctx, n):
+    """a literal that differs only in white space is a different literal — also when it arrives through recompile()"""
+    from pyab_experiment.experiment_evaluator import ExperimentEvaluator
+    rng = ctx.rng
+    for _ in range(n):
+        a = rng.choice(["New York", "a b", "x  y", " lead", "trail ", "tab\there", "two  spaces  twice", "a b c"])
+        b = rng.choice([a.replace(" ", "  ", 1), a.replace(" ", "\t", 1), a + " ", " " + a, a.replace("  ", " ")])
+        if a == b:
+            continue
+        form = rng.choice(["group", "operand", "tuple", "salt"])
+        def text(s):
+            if form == "group":
+                return 'def e { splitters: u return "%s" weighted 1 }' % s
+            if form == "operand":
+                return 'def e { splitters: u if x == "%s" { return "T" weighted 1 } else { return "F" weighted 1 } }' % s
+            if form == "tuple":
+                return 'def e { splitters: u if x in ("%s", "zz") { return "T" weighted 1 } else { return "F" weighted 1 } }' % s
+            return 'def e { salt: "%s" splitters: u return "p" weighted 1, "q" weighted 1, "r" weighted 1, "s" weighted 1 }' % s
+        ev = ExperimentEvaluator(text(a))
+        ev.recompile(text(b))
+        for u in ("u1", "u2", "u3", 4, 5):
+            env = {"u": u, "x": b}
+            got = common.outcome_of(lambda: ev(**env))
+            want = common.outcome_of(lambda: ExperimentEvaluator(text(b))(**env))
+            ctx.case(("twin", form, a, b, str(u)), True)
+            ctx.count("literal-twin:" + form)
+            if got != want:
+                ctx.violation(f"literal {b!r} (differs from {a!r} only in white space) does not reach run time after recompile: "
+                              f"got {json.dumps(got)[:60]}, a fresh evaluator gives {json.dumps(want)[:60]} ({form})",
+                              {"first": text(a), "then": text(b), "env": common.enc_env(env), "got": got, "want": want})
+                break
+
+
 def run(ctx):
     n = N[ctx.tier]
     if ctx.obligation_breaks or ctx.tie_breaks:
@@ -117,6 +150,7 @@ def run(ctx):
                          "only, inf, nan, 1e5, 0x10, non-ASCII, combining marks, empty, 2^53+-1, 100-digit ints, 17+-digit decimals, -0.0) x "
                          "inputs equal to and minimally different from the literal incl. other-typed look-alikes; compares value AND type")
     progcases.run_cases(ctx, make_cases(ctx, n))
+    literal_twins(ctx, max(20, n // 20))
     k2_probes(ctx)
 
 
